@@ -11,6 +11,7 @@ import (
 	"regexp"
 	"sort"
 	"strings"
+	"time"
 	"unicode/utf8"
 
 	"github.com/go-openapi/strfmt"
@@ -356,4 +357,35 @@ func Decode(b []byte) (any, error) {
 	var v any
 	err := json.Unmarshal(b, &v)
 	return v, err
+}
+
+// ValueEqual: JSON equality, and equality of the denoted value for the formats
+// whose canonical text differs from the input text (date-time, duration).
+func ValueEqual(format string, want, got any) bool {
+	if JSONEqual(want, got) {
+		return true
+	}
+	a, ok1 := want.(string)
+	b, ok2 := got.(string)
+	if !ok1 || !ok2 {
+		return false
+	}
+	switch format {
+	case "date-time":
+		ta, ea := strfmt.ParseDateTime(a)
+		tb, eb := strfmt.ParseDateTime(b)
+		return ea == nil && eb == nil && time.Time(ta).Equal(time.Time(tb))
+	case "duration":
+		da, ea := strfmt.ParseDuration(a)
+		db, eb := strfmt.ParseDuration(b)
+		return ea == nil && eb == nil && da == db
+	case "":
+		// unknown position format: tolerate the date-time canonicalisation
+		ta, ea := strfmt.ParseDateTime(a)
+		tb, eb := strfmt.ParseDateTime(b)
+		if ea == nil && eb == nil && len(a) >= 20 && len(b) >= 20 {
+			return time.Time(ta).Equal(time.Time(tb))
+		}
+	}
+	return false
 }
